@@ -24,3 +24,27 @@ func VfH_file() {
 	_ = err
 	vfAssert(!p, "file/no-panic")
 }
+
+// Longer inputs around buffer-size boundaries: a body of line comments (every scanner skips them, so
+// language detection walks the whole input with all three scanners) ending in one arbitrary byte.
+var vfLongSizes = []int{1024, 1025, 4097}
+
+func init() { vfRegistry["VfH_file_long"] = VfH_file_long }
+
+func VfN_file_long() int { return len(vfNames) * len(vfLongSizes) }
+
+func VfH_file_long() {
+	k := vfCase()
+	name, n := vfNames[k/len(vfLongSizes)], vfLongSizes[k%len(vfLongSizes)]
+	vfNote("case:" + name + "/long")
+	src := make([]byte, 0, n)
+	for len(src) < n-1 {
+		src = append(src, "// filler\n"[len(src)%10])
+	}
+	src = append(src, vfBytes("t", 1)[0])
+	var err error
+	p := vfCatch(func() { _, _, err = File(nil, name, src) })
+	vfObserve("panicked", vfB2U(p))
+	_ = err
+	vfAssert(!p, "file/no-panic-on-long-input")
+}
